@@ -15,7 +15,7 @@ aggregate_by_p_id_erziehungsgeld = {
 def erziehungsgeld_m(
     erziehungsgeld_eltern_m: int,
     erziehungsgeld_anspruch_eltern: bool,
-) -> bool:
+) -> float:
     """Total parental leave benefits (Erziehungsgeld).
 
     Parental leave benefits for the parent that claims the benefit.
@@ -298,7 +298,7 @@ def erziehungsgeld_anspruch_eltern(
         arbeitsstunden_w <= erziehungsgeld_params["arbeitsstunden_w_grenze"]
     )
 
-    return out
+    return bool(out)
 
 
 @policy_info(start_date="2004-01-01", end_date="2008-12-31")
